@@ -204,6 +204,97 @@ def addr_recipes(rng, thorough):
     return out
 
 
+
+# call histories on one key object: the answer to the last call is judged
+PFX = {'base58': [[0x30], [0x05], [0x6f], [0xc4], [0x1e]], 'bech32': ['ltc', 'tb', 'bcrt', 'doge']}
+KEY_TE = [('p2pkh', 'base58'), ('p2sh_p2wpkh', 'base58'), ('p2wpkh', 'bech32')]
+
+
+def _call(op, t='', e='', c='', pfx=None, net=''):
+    return {'op': op, 't': t, 'e': e, 'c': c, 'pfx': list(pfx or []), 'net': net}
+
+
+def _pfx(rng, e):
+    v = rng.choice(PFX[e])
+    return v if e == 'base58' else [ord(ch) for ch in v]
+
+
+def hist_recipes(rng, thorough):
+    out = []
+    keys = [1, rng.randrange(1, ref.N)] + ([rng.randrange(1, ref.N) for _ in range(4)] if thorough else [])
+
+    def add(obj, wt, net, k, comp0, calls):
+        out.append({'kind': 'hist', 'obj': obj, 'wt': wt, 'net': net, 'd': b32(k).hex(), 'comp0': comp0, 'calls': calls})
+
+    def objects():
+        yield 'key', ''
+        for wt in ('legacy', 'segwit', 'p2sh-segwit'):
+            yield 'hdkey', wt
+
+    n = 0
+    for k in keys:
+        for obj, wt in objects():
+            own = {'': None, 'legacy': KEY_TE[0], 'p2sh-segwit': KEY_TE[1], 'segwit': KEY_TE[2]}[wt]
+            for net in (NETS if thorough else NETS[n % 2::2]):
+                n += 1
+                net2 = NETS[(NETS.index(net) + 1 + n % 9) % len(NETS)]
+                t1, e1 = KEY_TE[n % 3]
+                t2, e2 = KEY_TE[(n // 3) % 3]
+                # systematic core
+                add(obj, wt, net, k, True, [_call('address'), _call('address')])
+                add(obj, wt, net, k, True, [_call('address', t1, e1), _call('address', t2, e2)])
+                add(obj, wt, net, k, True, [_call('address', t1, e1, pfx=_pfx(rng, e1)), _call('address', t1, e1)])
+                add(obj, wt, net, k, True, [_call('address', t1, e1), _call('address', t2, e2, pfx=_pfx(rng, e2))])
+                add(obj, wt, net, k, True, [_call('address', t1, e1, pfx=_pfx(rng, e1)), _call('address', t2, e2)])
+                add(obj, wt, net, k, True, [_call('wif'), _call('address', t1, e1), _call('public'), _call('address', t2, e2)])
+                add(obj, wt, net, k, True, [_call('address_uncompressed'), _call('address', t2, e2, 'T')])
+                add(obj, wt, net, k, False, [_call('address', 'p2pkh', 'base58', 'T'), _call('address_uncompressed')])
+                add(obj, wt, net, k, n % 2 == 0, [_call('address', c='F'), _call('address', t1, e1, 'T'),
+                                                  _call('address', 'p2pkh', 'base58', 'F')])
+                pb = _pfx(rng, 'base58')
+                add(obj, wt, net, k, True, [_call('address', 'p2pkh', 'base58', pfx=pb),
+                                            _call('address', 'p2sh_p2wpkh', 'base58', pfx=pb)])
+                add(obj, wt, net, k, True, [_call('address', 'p2pkh', 'base58', pfx=pb),
+                                            _call('address', 'p2pkh', 'base58', 'F', pfx=pb)])
+                if obj == 'key' or own[1] == 'base58':
+                    add(obj, wt, net, k, True, [_call('address', pfx=_pfx(rng, 'base58')), _call('address')])
+                if obj == 'hdkey':
+                    add(obj, wt, net, k, True, [_call('address'), _call('network_change', net=net2), _call('address')])
+                    add(obj, wt, net, k, True, [_call('address', t1, e1), _call('network_change', net=net2),
+                                                _call('address', t1, e1)])
+                    add(obj, wt, net, k, True, [_call('address', t1, e1, pfx=_pfx(rng, e1)),
+                                                _call('network_change', net=net2), _call('address', t2, e2)])
+                    add(obj, wt, net, k, True, [_call('network_change', net=net2), _call('address'),
+                                                _call('network_change', net=net), _call('address')])
+                    add(obj, wt, net, k, True, [_call('address'), _call('network_change', net=net2), _call('public'),
+                                                _call('address')])
+                else:
+                    add(obj, wt, net, k, True, [_call('address', t1, e1), _call('address', e=e2)])
+                    add(obj, wt, net, k, True, [_call('address', t1, e1), _call('address', t2)])
+                # random histories
+                for _ in range(6 if thorough else 2):
+                    calls = []
+                    for i in range(rng.randrange(1, 3)):
+                        op = rng.choice(['address', 'address', 'address', 'address_uncompressed', 'wif', 'public', 'hash160']
+                                        + (['network_change'] * 3 if obj == 'hdkey' else []))
+                        if op == 'address':
+                            t, e = rng.choice(KEY_TE)
+                            if rng.random() < 0.25:
+                                t, e = '', ''
+                            pf = _pfx(rng, e or (own[1] if own else 'base58')) if rng.random() < 0.4 and (e or obj == 'hdkey' or not calls) else None
+                            calls.append(_call('address', t, e, rng.choice(['', '', 'T', 'F']), pf))
+                        elif op == 'network_change':
+                            calls.append(_call(op, net=rng.choice(NETS)))
+                        else:
+                            calls.append(_call(op))
+                    t, e = rng.choice(KEY_TE)
+                    if rng.random() < 0.3:
+                        t, e = '', ''
+                    last = _call('address', t, e, rng.choice(['', '', 'T']),
+                                 _pfx(rng, e) if e and rng.random() < 0.25 else None)
+                    add(obj, wt, net, k, rng.random() < 0.8, calls + [last])
+    return out
+
 # --------------------------------------------------------------------------------------------- driving bitcoinlib
 def _grab(f):
     try:
@@ -309,6 +400,60 @@ def drive(rc):
         except Exception:
             pass
         return rec
+    if rc['kind'] == 'hist':
+        d = bytes.fromhex(rc['d'])
+        rec = {'kind': 'hist', 'obj': rc['obj'], 'wt': rc['wt'], 'net': rc['net'], 'd': blist(d), 'comp0': rc['comp0'],
+               'calls': rc['calls'], 'acc': False, 'got': []}
+
+        def perform(o, c):
+            if c['op'] in ('address', 'address_uncompressed'):
+                kw = {}
+                if c['t']:
+                    kw['script_type'] = c['t']
+                if c['e']:
+                    kw['encoding'] = c['e']
+                if c['pfx']:
+                    kw['prefix'] = bytes(c['pfx']) if all(ch < 33 or ch > 126 for ch in c['pfx']) or len(c['pfx']) == 1 \
+                        else ''.join(chr(ch) for ch in c['pfx'])
+                if c['op'] == 'address_uncompressed':
+                    return o, o.address_uncompressed(**kw)
+                if c['c']:
+                    kw['compressed'] = c['c'] == 'T'
+                return o, o.address(**kw)
+            if c['op'] == 'network_change':
+                return o, o.network_change(c['net'])
+            if c['op'] == 'wif':
+                return o, o.wif()
+            if c['op'] == 'public':
+                return o.public(), None
+            if c['op'] == 'hash160':
+                return o, o.hash160
+            raise MachineryError('unknown call %r' % (c,))
+        try:
+            if rc['obj'] == 'key':
+                o = Key(d, network=rc['net'], compressed=rc['comp0'])
+            else:
+                o = HDKey(key=d, chain=b'\x07' * 32, network=rc['net'], witness_type=rc['wt'], compressed=rc['comp0'])
+        except Exception:
+            raise MachineryError('could not create the key object of a history: %r' % (rc,))
+        for c in rc['calls'][:-1]:
+            try:
+                o, _ = perform(o, c)
+            except MachineryError:
+                raise
+            except Exception:
+                pass                      # a refused earlier call is part of the history
+        try:
+            _, a = perform(o, rc['calls'][-1])
+            if not isinstance(a, str):
+                raise TypeError('address is not a string')
+            rec['got'] = [ord(ch) for ch in a]
+            rec['acc'] = True
+        except MachineryError:
+            raise
+        except Exception:
+            pass
+        return rec
     raise MachineryError('unknown recipe kind %r' % rc['kind'])
 
 
@@ -319,6 +464,14 @@ def describe(rc):
     if rc['kind'] == 'pub':
         return 'Key(<%s prefix %02x x=%s y=%s (%s)>, compressed=%s)' % (
             rc['fmt'], rc['pre'], rc['x'], rc['y'] or '-', rc['label'], rc['param'])
+    if rc['kind'] == 'hist':
+        def cs(c):
+            a = [x for x in ('script_type=' + c['t'] if c['t'] else '', 'encoding=' + c['e'] if c['e'] else '',
+                             'compressed=' + c['c'] if c['c'] else '', 'prefix=' + show(c['pfx'], len(c['pfx']) > 1)
+                             if c['pfx'] else '', c['net']) if x]
+            return '%s(%s)' % (c['op'], ', '.join(a))
+        return 'one %s object (scalar %s, network=%s, witness_type=%s, compressed=%s): %s' % (
+            rc['obj'], rc['d'], rc['net'], rc['wt'] or '-', rc['comp0'], '; '.join(cs(c) for c in rc['calls']))
     return '%s net=%s script_type=%s encoding=%s witness_type=%s %s=%s compressed=%s' % (
         rc['route'], rc['net'], rc['t'] or '-', rc['e'] or '-', rc['wt'] or '-', rc['src'], rc['d'][:140], rc['comp'])
 
@@ -328,6 +481,9 @@ def klass(rc, rec):
         return ('priv', rc['fmt'], rc['label'], rc['param'], rec['acc'])
     if rc['kind'] == 'pub':
         return ('pub', rc['fmt'], rc['pre'], rc['label'], rec['acc'])
+    if rc['kind'] == 'hist':
+        return ('hist', rc['obj'], rc['wt'], rc['net'], rc['comp0'],
+                tuple((c['op'], c['t'], c['e'], c['c'], bool(c['pfx']), c['net']) for c in rc['calls']))
     return ('addr', rc['route'], rc['net'], rc['t'], rc['e'], rc['wt'], rc['comp'], len(rc['d']) // 2)
 
 
@@ -372,7 +528,8 @@ def run(replay=None):
     if replay:
         recipes = [replay['case']['recipe']]
     else:
-        recipes = priv_recipes(rng, thorough) + pub_recipes(rng, thorough) + addr_recipes(rng, thorough)
+        recipes = (priv_recipes(rng, thorough) + pub_recipes(rng, thorough) + addr_recipes(rng, thorough)
+                   + hist_recipes(rng, thorough))
 
     # ---------------- (G) WIF strings from the specification
     wifs = [rc for rc in recipes if rc['kind'] == 'priv' and rc['fmt'] in ('wif', 'wifc') and 'wif' not in rc]
@@ -395,10 +552,10 @@ def run(replay=None):
         ck.case(klass(rc, rec))
         nacc += bool(rec['acc'])
         if v['v'] != 'ok':
-            got = rec.get('got') if rc['kind'] == 'addr' else rec.get('pubhex')
+            got = rec.get('got') if rc['kind'] in ('addr', 'hist') else rec.get('pubhex')
             if v['dev'] == 'int-zero-generates-random-key':
                 got = [ord(c) for c in '<a fresh random key>']
-            txt = rc['kind'] == 'addr' or v['dev'] == 'int-zero-generates-random-key'
+            txt = rc['kind'] in ('addr', 'hist') or v['dev'] == 'int-zero-generates-random-key'
             ck.violation(v['dev'] or None, '%s: clause %s; %s, answered %s; specification expects %s' % (
                 describe(rc), v['v'], 'accepted' if rec['acc'] else 'refused', show(got, txt) or '-',
                 show(v['exp'], txt) or ('refusal' if v['v'].startswith(('invalid', 'no-standard')) else '-')),
@@ -409,9 +566,10 @@ def run(replay=None):
     step = max(1, len(recipes) // 6)
     for rc, rec in list(zip(recipes, recs))[1::step]:
         ck.sample({'case': describe(rc), 'accepted': rec['acc'],
-                   'answer': show(rec.get('got') if rc['kind'] == 'addr' else rec.get('pubhex'), rc['kind'] == 'addr')},
+                   'answer': show(rec.get('got') if rc['kind'] in ('addr', 'hist') else rec.get('pubhex'),
+                                  rc['kind'] in ('addr', 'hist'))},
                   limit=8)
-    ck.notes['records'] = {k: sum(1 for rc in recipes if rc['kind'] == k) for k in ('priv', 'pub', 'addr')}
+    ck.notes['records'] = {k: sum(1 for rc in recipes if rc['kind'] == k) for k in ('priv', 'pub', 'addr', 'hist')}
     ck.notes['accepted_by_implementation'] = nacc
     ck.notes['wif_strings_generated_by_spec'] = len(wifs)
     ck.notes['primitive_values_supplied'] = _stats['values']
